@@ -269,3 +269,81 @@ Theorem job_pairing_refuted : exists jobs completed j t,
 Proof.
   exists ["0.0"; "0.1"], ["0.1"; "0.0"], "0.0", "0.1". split; [apply perm_swap|]. split; [left; reflexivity|discriminate].
 Qed.
+
+(* ================================================================== rounds: the recorded tokens were CONSUMED *)
+(* [from S m]: every (port, token) stored in the inputs_map satisfies S; with S = "was a head of some round at that
+   port" this says a group only ever holds tokens the step read, at the port it read them from *)
+Definition from (S : nat * tok -> Prop) (m : imap) : Prop :=
+  forall g inner, In (g, inner) m -> forall p, In p inner -> S p.
+
+Lemma group_one_from S i t m : from S m -> S (i, t) -> from S (group_one i t m).
+Proof.
+  intros Hm Hs g inner H p Hp. destruct (group_one_in i t m g inner H) as [H'|[_ [Hi|[old [Ho Hi]]]]].
+  - eapply Hm; eauto.
+  - subst. destruct Hp as [<-|[]]. exact Hs.
+  - subst. destruct (set_inner_in i t old p Hp) as [->|Hq]; [exact Hs|eapply Hm; eauto].
+Qed.
+
+Lemma group_by_tag_from S : forall heads i m, from S m ->
+  (forall j t, nth_error heads j = Some t -> S (i + j, t)) -> from S (group_by_tag i heads m).
+Proof.
+  induction heads as [|t r IH]; intros i m Hm Hh; simpl; [exact Hm|]. apply IH.
+  - apply group_one_from; [exact Hm|]. specialize (Hh 0 t eq_refl). rewrite Nat.add_0_r in Hh. exact Hh.
+  - intros j u Hj. replace (S i + j) with (i + S j) by lia. apply Hh. exact Hj.
+Qed.
+
+Lemma remove_key_from S g m : from S m -> from S (remove_key g m).
+Proof. intros Hm g0 inner H. apply Hm. eapply remove_key_in; eauto. Qed.
+
+Lemma process_prov_from S k nin nout : forall keys m g ids, imap_ok m -> from S m ->
+  In (g, ids) (process_prov k nin nout keys m) ->
+  exists inner, ids = group_ids inner /\ inner_ok g inner /\ length inner = nin /\ forall p, In p inner -> S p.
+Proof.
+  induction keys as [|g0 r IH]; intros m g ids Hm Hf H; simpl in H; [destruct H|].
+  destruct (lookup_key g0 m) as [inner|] eqn:L; [|eapply IH; eauto].
+  destruct (Nat.eqb (length inner) nin) eqn:E; [|eapply IH; eauto].
+  destruct (emit_tag k nout g0 inner) as [o|]; [|destruct H].
+  apply in_app_or in H. destruct H as [H|H].
+  - destruct (emits_something o); [|destruct H]. destruct H as [H|[]]. inversion H; subst.
+    pose proof (lookup_key_in _ _ _ L) as Hin.
+    exists inner. split; [reflexivity|]. split; [apply (proj2 Hm); exact Hin|]. split; [apply Nat.eqb_eq; exact E|].
+    intros p Hp. eapply Hf; eauto.
+  - eapply IH; [apply remove_key_ok; exact Hm|apply remove_key_from; exact Hf|exact H].
+Qed.
+
+Lemma process_tags_from S k nin nout : forall keys m acc m' o b, from S m ->
+  process_tags k nin nout keys m acc = (m', o, b) -> from S m'.
+Proof.
+  induction keys as [|g r IH]; intros m acc m' o b Hm H; simpl in H.
+  - inversion H; subst. exact Hm.
+  - destruct (lookup_key g m) as [inner|]; [|eapply IH; eauto].
+    destruct (Nat.eqb (length inner) nin); [|eapply IH; eauto].
+    destruct (emit_tag k nout g inner).
+    + eapply IH; [apply remove_key_from; exact Hm|exact H].
+    + inversion H; subst. apply remove_key_from. exact Hm.
+Qed.
+
+Lemma round_state_from S k nin nout m heads : from S m ->
+  (forall j t, nth_error heads j = Some t -> S (j, t)) -> from S (round_state k nin nout m heads).
+Proof.
+  intros Hm Hh. unfold round_state, tg_fire. destruct (existsb is_term heads); [exact Hm|].
+  destruct (process_tags k nin nout (map fst (group_by_tag 0 heads m)) (group_by_tag 0 heads m) (repeat [] nout))
+    as [[m2 o] b] eqn:P.
+  assert (from S m2) by (eapply process_tags_from; [apply group_by_tag_from; [exact Hm|exact Hh]|exact P]).
+  destruct b; exact H.
+Qed.
+
+Theorem rounds_inputs_consumed k nin nout : forall rounds m g ids (S : nat * tok -> Prop),
+  imap_ok m -> from S m ->
+  (forall heads j t, In heads rounds -> nth_error heads j = Some t -> S (j, t)) ->
+  In (g, ids) (rounds_prov k nin nout m rounds) ->
+  exists inner, ids = group_ids inner /\ inner_ok g inner /\ length inner = nin /\ forall p, In p inner -> S p.
+Proof.
+  induction rounds as [|h r IH]; intros m g ids S Hm Hf Hs H; simpl in H; [destruct H|].
+  assert (Hh : forall j t, nth_error h j = Some t -> S (j, t)) by (intros j t; apply Hs; left; reflexivity).
+  apply in_app_or in H. destruct H as [H|H].
+  - unfold round_prov in H. destruct (existsb is_term h); [destruct H|].
+    eapply process_prov_from; [apply group_by_tag_ok; exact Hm|apply group_by_tag_from; [exact Hf|exact Hh]|exact H].
+  - eapply IH; [apply round_state_ok; exact Hm|apply round_state_from; [exact Hf|exact Hh]| |exact H].
+    intros heads j t Hin. apply Hs. right. exact Hin.
+Qed.
